@@ -197,6 +197,162 @@ Lemma Array_ReadFrom fuel re zero old :
   end.
 Proof. exact (Ary_ReadFrom_is_skel fuel LVarInt re zero old). Qed.
 
+(* ------------------------------------------------------------------ 13b. Ary.ReadFrom: what is allocated *)
+(* (the defect fixed by 9fa2cc1 lived here: MakeSlice(int(Len), int(Len)) before any element had arrived.)
+   The two sizes of the fresh-destination branch are TRANSLATED from the source (Gen/C06gen.v):
+     first = min(int(Len), maxPreallocElems)            slots made before the loop
+     more  = min(int(Len)-i, i)                         slots appended when i == array.Len()
+   and the skeleton (Ary_ReadFrom_is_skel) fixes where they are used: `first` once, in the Cap < Len branch; `more`
+   at the head of the loop body, only when every slot allocated so far has been read.  ary_reach n a r: with a
+   declared count n, a slots exist and r elements have been (or are being) read.  The reused-destination branch
+   allocates nothing. *)
+Local Open Scope Z_scope.
+Inductive ary_reach (n : Z) : Z -> Z -> Prop :=
+| ar_first : ary_reach n (packet_Ary_ReadFrom_first n) 0
+| ar_read a r : ary_reach n a r -> r < a -> r < n -> ary_reach n a (r + 1)
+| ar_grow a r : ary_reach n a r -> r = a -> r < n -> ary_reach n (a + packet_Ary_ReadFrom_more n r) r.
+
+Lemma ary_alloc_bounded n : 0 <= n < 2 ^ 63 -> forall a r, ary_reach n a r ->
+  0 <= r <= a /\ a <= n /\ (a <= packet_maxPreallocElems \/ a <= 2 * r).
+Proof.
+  intros Hn a r H. change (2 ^ 63) with 9223372036854775808 in Hn.
+  assert (W : wrap_s 64 n = n) by (apply wrap_s_id; [lia|change (2 ^ (64 - 1)) with 9223372036854775808; lia]).
+  induction H as [|a r H IH L1 L2|a r H IH E L].
+  - unfold packet_Ary_ReadFrom_first, packet_maxPreallocElems. rewrite W. lia.
+  - lia.
+  - unfold packet_Ary_ReadFrom_more. rewrite W.
+    rewrite (wrap_s_id 64 (n - r)) by (try (change (2 ^ (64 - 1)) with 9223372036854775808); lia). lia.
+Qed.
+(* in particular: before the first element has been read no more than maxPreallocElems slots exist, whatever the
+   count declared; and 40 bytes of input (at most 40 elements started) never see more than 1024 slots *)
+Lemma ary_alloc_before_first n a : 0 <= n < 2 ^ 63 -> ary_reach n a 0 -> a <= 1024.
+Proof. intros Hn H. destruct (ary_alloc_bounded n Hn a 0 H) as (_ & _ & [B|B]); unfold packet_maxPreallocElems in B; lia. Qed.
+
+(* the same rule for the byte payloads of String / ByteArray (readBytes: the buffer, grown when it has been filled)
+   and for the words of a BitSet read into a fresh slice: the growth expressions are TRANSLATED from the source *)
+Inductive grow_reach (first : Z -> Z) (more : Z -> Z -> Z) (n : Z) : Z -> Z -> Prop :=
+| gr_first : grow_reach first more n (first n) 0
+| gr_read a r : grow_reach first more n a r -> r < a -> r < n -> grow_reach first more n a (r + 1)
+| gr_grow a r : grow_reach first more n a r -> r = a -> r < n -> grow_reach first more n (a + more n r) r.
+
+Lemma bytes_alloc_bounded n : 0 <= n < 2 ^ 63 -> forall a r, grow_reach packet_readBytes_first packet_readBytes_more n a r ->
+  0 <= r <= a /\ a <= n /\ (a <= packet_maxPreallocBytes \/ a <= 2 * r).
+Proof.
+  intros Hn a r H. change (2 ^ 63) with 9223372036854775808 in Hn.
+  induction H as [|a r H IH L1 L2|a r H IH E L].
+  - unfold packet_readBytes_first, packet_maxPreallocBytes. lia.
+  - lia.
+  - unfold packet_readBytes_more.
+    rewrite (wrap_s_id 64 (n - r)) by (try (change (2 ^ (64 - 1)) with 9223372036854775808); lia). lia.
+Qed.
+Lemma bitset_alloc_bounded n : 0 <= n < 2 ^ 63 -> forall a r, grow_reach packet_BitSet_ReadFrom_first packet_BitSet_ReadFrom_more n a r ->
+  0 <= r <= a /\ a <= n /\ (a <= packet_maxPreallocBytes / 8 \/ a <= 2 * r).
+Proof.
+  intros Hn a r H. change (2 ^ 63) with 9223372036854775808 in Hn.
+  assert (W : wrap_s 64 n = n) by (apply wrap_s_id; [lia|change (2 ^ (64 - 1)) with 9223372036854775808; lia]).
+  change (packet_maxPreallocBytes / 8) with 8192.
+  induction H as [|a r H IH L1 L2|a r H IH E L].
+  - unfold packet_BitSet_ReadFrom_first. rewrite W. lia.
+  - lia.
+  - unfold packet_BitSet_ReadFrom_more. rewrite W.
+    rewrite (wrap_s_id 64 (n - r)) by (try (change (2 ^ (64 - 1)) with 9223372036854775808); lia). lia.
+Qed.
+Local Close Scope Z_scope.
+
+(* ------------------------------------------------------------------ 13c. readBytes IS one ReadFull of n bytes *)
+(* the translated String / ByteArray readers use `readBytes(r, n)` as the effect ReadFull n.  Here the helper's own
+   body is interpreted: a buffer of `first` bytes, then repeatedly io.ReadFull(r, buf[read:]); read = len(buf);
+   done when read == n; otherwise `more` further bytes.  With enough fuel for the doublings (64 is enough for any
+   n < 2^62) it runs exactly like ReadFull n followed by returning the bytes. *)
+Local Open Scope Z_scope.
+Fixpoint rb_loop (fuel : nat) (n : Z) (acc : list N) (read blen : Z) : dec (list N) :=
+  match fuel with
+  | O => NoFuel
+  | S f => ReadFull (Z.to_N (blen - read)) (fun data =>           (* nn, err := io.ReadFull(r, buf[read:]) *)
+             if (blen =? n) then Ret (acc ++ data)                  (* if read = len(buf); read == n { return buf, nil } *)
+             else rb_loop f n (acc ++ data) blen (blen + packet_readBytes_more n blen))   (* more; append *)
+  end.
+Definition rb_body_ok (body : list cstmt6) : bool :=
+  match body with
+  | [KOther a; KIf i1 c1 [KIf i2 c2 [KOther e] []; KReturn r1] []; KIf i3 c3 [KReturn r2] []; KOther m; KOther g] =>
+      seq a "nn, err := io.ReadFull(r, buf[read:])" && seq i1 "" && seq c1 "err != nil"
+      && seq i2 "" && seq c2 "err == io.EOF && read > 0" && seq e "err = io.ErrUnexpectedEOF" && seq r1 "buf[:read+nn], err"
+      && seq i3 "read = len(buf)" && seq c3 "read == n" && seq r2 "buf, nil"
+      && seq m "more := min(n-read, read)" && seq g "buf = append(buf, make([]byte, more)...)"
+  | _ => false
+  end.
+Definition readBytes_interp (ps : list cstmt6) (fuel : nat) (n : Z) : dec (list N) :=
+  match ps with
+  | [KOther a; KOther b; KFor i c p body] =>
+      if seq a "first := min(n, maxPreallocBytes)" && seq b "buf := make([]byte, first)"
+         && seq i "read := 0" && seq c "" && seq p "" && rb_body_ok body
+      then (if (packet_readBytes_first n <? 0) then Crash crash_make else rb_loop fuel n [] 0 (packet_readBytes_first n))
+      else Crash eUnknown
+  | _ => Crash eUnknown
+  end.
+
+Lemma takeN_plus (a b : N) (s : list N) : (takeN a s ++ takeN b (dropN a s))%list = takeN (a + b) s.
+Proof.
+  unfold takeN, dropN. replace (N.to_nat (a + b)) with (N.to_nat a + N.to_nat b)%nat by lia.
+  revert s. induction (N.to_nat a) as [|k IH]; intros s; [reflexivity|].
+  destruct s as [|x s]; cbn [firstn skipn Nat.add app]; [rewrite firstn_nil; reflexivity|]. rewrite IH. reflexivity.
+Qed.
+Lemma dropN_plus (a b : N) (s : list N) : dropN b (dropN a s) = dropN (a + b) s.
+Proof.
+  unfold dropN. replace (N.to_nat (a + b)) with (N.to_nat a + N.to_nat b)%nat by lia.
+  revert s. induction (N.to_nat a) as [|k IH]; intros s; [reflexivity|].
+  destruct s as [|x s]; cbn [skipn Nat.add]; [apply skipn_nil|apply IH].
+Qed.
+Lemma lenN_dropN (a : N) (s : list N) : lenN (dropN a s) = (lenN s - a)%N.
+Proof. unfold lenN, dropN. rewrite skipn_length. lia. Qed.
+
+Lemma rb_loop_S f n acc read blen : rb_loop (S f) n acc read blen =
+  ReadFull (Z.to_N (blen - read)) (fun data =>
+    if (blen =? n) then Ret (acc ++ data)%list
+    else rb_loop f n (acc ++ data)%list blen (blen + packet_readBytes_more n blen)).
+Proof. reflexivity. Qed.
+
+Lemma rb_loop_run n : 0 <= n < 4611686018427387904 -> forall f acc read blen s,
+  0 <= read <= blen -> blen <= n -> (read < blen \/ blen = n) -> n <= blen * 2 ^ Z.of_nat f ->
+  run_flat (rb_loop (S f) n acc read blen) s =
+  if (Z.to_N (n - read) <=? lenN s)%N then FOk (acc ++ takeN (Z.to_N (n - read)) s)%list (dropN (Z.to_N (n - read)) s)
+  else FErr eEOF.
+Proof.
+  intros Hn. induction f as [|f IH]; intros acc read blen s Hr Hb Hp Hf.
+  - (* no doubling left: the buffer already has n bytes *)
+    change (2 ^ Z.of_nat 0) with 1 in Hf. assert (blen = n) by lia. subst blen.
+    rewrite rb_loop_S. cbn [run_flat]. rewrite Z.eqb_refl. destruct (Z.to_N (n - read) <=? lenN s)%N; reflexivity.
+  - rewrite (rb_loop_S (S f)). cbn [run_flat].
+    destruct (Z.eqb_spec blen n) as [->|Ne].
+    + destruct (Z.to_N (n - read) <=? lenN s)%N; reflexivity.
+    + assert (Hlt : read < blen) by lia.
+      unfold packet_readBytes_more. rewrite (wrap_s_id 64 (n - blen)) by (change (2 ^ (64 - 1)) with 9223372036854775808; lia).
+      set (b' := blen + Z.min (n - blen) blen).
+      destruct (N.leb_spec (Z.to_N (blen - read)) (lenN s)) as [L1|L1].
+      * rewrite IH; [|lia|unfold b'; lia|unfold b'; lia|].
+        2:{ unfold b'. rewrite Nat2Z.inj_succ, Z.pow_succ_r in Hf by lia. destruct (Z.min_spec (n - blen) blen) as [[_ ->]|[_ ->]].
+            - replace (blen + (n - blen)) with n by lia. assert (0 < 2 ^ Z.of_nat f) by (apply Z.pow_pos_nonneg; lia). nia.
+            - lia. }
+        rewrite lenN_dropN. rewrite <- app_assoc, takeN_plus, dropN_plus.
+        replace (Z.to_N (blen - read) + Z.to_N (n - blen))%N with (Z.to_N (n - read)) by lia.
+        destruct (N.leb_spec (Z.to_N (n - blen)) (lenN s - Z.to_N (blen - read))) as [L2|L2];
+        destruct (N.leb_spec (Z.to_N (n - read)) (lenN s)) as [L3|L3]; try reflexivity; lia.
+      * destruct (N.leb_spec (Z.to_N (n - read)) (lenN s)) as [L3|L3]; [lia|reflexivity].
+Qed.
+
+Lemma readBytes_is_ReadFull n s : 0 <= n < 2 ^ 62 ->
+  run_flat (readBytes_interp (snd C06gen.skel_readBytes) 64 n) s = run_flat (ReadFull (Z.to_N n) (fun data => Ret data)) s.
+Proof.
+  intros Hn. change (2 ^ 62) with 4611686018427387904 in Hn.
+  change (readBytes_interp (snd C06gen.skel_readBytes) 64 n)
+    with (if (packet_readBytes_first n <? 0) then Crash crash_make else rb_loop 64 n [] 0 (packet_readBytes_first n)).
+  unfold packet_readBytes_first. destruct (Z.ltb_spec (Z.min n 65536) 0) as [?|_]; [lia|].
+  change 64%nat with (S 63).
+  rewrite (rb_loop_run n Hn 63 [] 0 (Z.min n 65536) s) by (try (change (2 ^ Z.of_nat 63) with 9223372036854775808); lia).
+  rewrite Z.sub_0_r. cbn [run_flat app]. destruct (Z.to_N n <=? lenN s)%N; reflexivity.
+Qed.
+Local Close Scope Z_scope.
+
 (* ------------------------------------------------------------------ 14. every body has a lemma *)
 (* a function name packaged with the statement of its tie / interpretation lemma and its proof *)
 Record cov := mkcov { c_name : string; c_stmt : Prop; c_proof : c_stmt }.
@@ -229,6 +385,7 @@ Definition covered : list cov :=
     mkcov "NBTField.WriteTo" NBTField_WriteTo_is_skel; mkcov "NBTField.ReadFrom" NBTField_ReadFrom_allow_is_skel;
     mkcov "countingWriter.Write" countingWriter_Write_is_skel; mkcov "countingReader.Read" countingReader_Read_is_skel;
     mkcov "ByteArray.WriteTo" tie_lenbytes_write; mkcov "ByteArray.ReadFrom" closed_ByteArray_read;
+    mkcov "readBytes" readBytes_is_ReadFull;
     mkcov "UUID.WriteTo" tie_UUID_write; mkcov "UUID.ReadFrom" tie_UUID_read;
     mkcov "PluginMessageData.WriteTo" tie_PluginMessageData_write;
     mkcov "PluginMessageData.ReadFrom" PluginMessageData_ReadFrom_is_skel;
